@@ -44,7 +44,9 @@ class NixExpression:
         elif isinstance(self.scope_state, dict):
             self.scope_state = ScopeState(**self.scope_state)
         state = cast(ScopeState, self.scope_state)
-        if state.stack:
+        if state.stack and not all(layer.get("scope") for layer in state.stack):
+            # (only when there is something to drop: the state object is shared with
+            # copies made during rebuild, which must not re-assign the original's list)
             state.stack = [layer for layer in state.stack if layer.get("scope")]
 
     @classmethod
